@@ -43,7 +43,8 @@ def impl_safe_names(names, is_file=True):
     return [e._n for e in els]
 
 
-def impl_combine(export_names):
+def impl_combine(export_names, raw_names=None):
+    """raw_names: the stored names the samples carry (pairing goes by the EXPORT names, whatever the stored names are)"""
     import io
     from smpl_extract.generalized.sample import Sample
     from smpl_extract.data_streams import DataStream
@@ -52,7 +53,7 @@ def impl_combine(export_names):
     for i, n in enumerate(export_names):
         ds = DataStream(io.BytesIO(bytes([i])))
         ds._src = i
-        samples.append(Sample(name=n, data_streams=[ds], _export_name=n))
+        samples.append(Sample(name=(raw_names[i] if raw_names is not None else n), data_streams=[ds], _export_name=n))
     out = img.combine_stereo_routine(samples)
     return [(s.export_name, [d._src for d in s.data_streams]) for s in out]
 
